@@ -56,7 +56,8 @@ COLUMN_PROFILE = {
 COLUMN_RICH_JOIN = dict(COLUMN_PROFILE, top={"from": ["join"], "rel": ["base_alias"], "nitems": [2], "colref_style": ["qual"]})
 COLUMN_RICH_DERIVED = dict(COLUMN_PROFILE, top={"from": ["join"], "rel": ["derived"], "nitems": [2], "colref_style": ["qual"]})
 COLUMN_RICH_CTE = dict(COLUMN_PROFILE, top={"query": ["with"], "from": ["join"], "rel": ["cte_alias", "base_alias"], "nitems": [2], "colref_style": ["qual"]})
-CENTRES = {"simple": COLUMN_PROFILE, "join": COLUMN_RICH_JOIN, "derived": COLUMN_RICH_DERIVED, "cte": COLUMN_RICH_CTE}
+COLUMN_RICH_STAR = dict(COLUMN_PROFILE, top={"from": ["join"], "rel": ["derived"], "nitems": [2], "items": ["qstar"], "colref_style": ["qual"]})
+CENTRES = {"simple": COLUMN_PROFILE, "join": COLUMN_RICH_JOIN, "derived": COLUMN_RICH_DERIVED, "cte": COLUMN_RICH_CTE, "star": COLUMN_RICH_STAR}
 
 
 class Ctx:
@@ -246,7 +247,8 @@ def gen_item(ctx: Ctx, rels, depth: int, path: str, no_star=False):
     if k == "star":
         return {"e": ["star", None], "alias": None}
     if k == "qstar":
-        return {"e": ["star", rel_info(ctx, rels[0])[0]], "alias": None}
+        i = int(path.split(".item[")[1].split("]")[0]) if (ctx.p.get("top") and ctx.is_top(path) and ".item[" in path) else 0
+        return {"e": ["star", rel_info(ctx, rels[i % len(rels)])[0]], "alias": None}
     if k == "alias":
         return {"e": cr(0), "alias": ctx.xname()}
     if k == "func":
